@@ -389,6 +389,43 @@ def run_worker(ctx):
             record(v, {'kind': 'default', 'method': m, 'route': route,
                        'path': path, 'body': body, 'caller': caller,
                        'variant': variant, 'version': ver})
+    if ctx.idx == 1 % ctx.nworkers:
+        # "every route except / answers 401 to a request without
+        # credentials" - whatever else is wrong with the request: unsupported
+        # or unparsable microversion, unacceptable Accept, wrong content
+        # type, malformed body
+        odd = [('version 1.99', dict(version='1.99')),
+               ('version 2.0', dict(version='2.0')),
+               ('version garbage', dict(headers={
+                   'OpenStack-API-Version': 'placement x.y'})),
+               ('other service only', dict(headers={
+                   'OpenStack-API-Version': 'compute 2.1'})),
+               ('accept text/plain', dict(version=V, accept='text/plain')),
+               ('content-type text/plain', dict(version=V,
+                                                content_type='text/plain')),
+               ('malformed body', dict(version=V, raw_body=b'{"a":'))]
+        for (m, route, path, body, missing) in OPS:
+            for label, kw in odd:
+                svc.restore(snap)
+                kw = dict(kw)
+                if 'raw_body' not in kw:
+                    kw['body'] = body
+                r = svc.request(m, path, token=None, **kw)
+                stats.evaluations += 1
+                stats.nontriv(stable_hash(['anon-odd', m, route, label]))
+                stats.count('no credentials, %s -> %s' % (label, r.status))
+                if r.status != 401:
+                    record(Violation(
+                        {'clause': 'no-credentials-not-401', 'form': label},
+                        {'status': r.status, 'method': m, 'route': route}),
+                        {'kind': 'anon-odd', 'method': m, 'route': route,
+                         'path': path, 'form': label})
+                elif diff(before, dump(svc.dbpath)):
+                    record(Violation(
+                        {'clause': 'unauthenticated-request-changed-state',
+                         'form': label}, {'method': m, 'route': route}),
+                        {'kind': 'anon-odd', 'method': m, 'route': route,
+                         'path': path, 'form': label})
     if ctx.idx == 0:
         # what one request established must not carry over to the next one:
         # a caller without any role right after an administrator, both
